@@ -682,6 +682,22 @@ func SharedSpecTargets() []Target {
 	for i := 0; i < 6; i++ {
 		out = append(out, SharedSpecTarget(CustomTarget(i)))
 	}
+	// a spec whose server_name extension already names the host
+	for _, pn := range []string{"Chrome_120", "Firefox_105"} {
+		p := ParrotByName(pn)
+		out = append(out, SharedSpecTarget(Target{Name: p.Name + "+named-sni", Spec: func() (*tls.ClientHelloSpec, error) {
+			sp, err := tls.UTLSIdToSpec(p.ID)
+			if err != nil {
+				return nil, err
+			}
+			for _, e := range sp.Extensions {
+				if sn, ok := e.(*tls.SNIExtension); ok {
+					sn.ServerName = "example.test"
+				}
+			}
+			return &sp, nil
+		}}))
+	}
 	return out
 }
 
